@@ -25,22 +25,22 @@ func (o Obligation) Key() string { return o.Rule + " " + o.Construct }
 
 // Ctx is the state of one property check.
 type Ctx struct {
-	P     *Program
-	M     *Model
-	Prop  string
-	Tier  string
-	Obls  []Obligation
-	Floors []Floor
-	Notes []string
-	Analysed map[string]int
-	start time.Time
-	walkCache []*walkInfo
-	parseCache []*parseSite
+	P           *Program
+	M           *Model
+	Prop        string
+	Tier        string
+	Obls        []Obligation
+	Floors      []Floor
+	Notes       []string
+	Analysed    map[string]int
+	start       time.Time
+	walkCache   []*walkInfo
+	parseCache  []*parseSite
 	nilSafeMemo map[string]bool
-	abw map[fieldKey]bool
-	focus []string
+	abw         map[fieldKey]bool
+	focus       []string
 	tonl01Kinds map[string]bool
-	pkgoKinds map[string]map[string]bool
+	pkgoKinds   map[string]map[string]bool
 }
 
 type Floor struct {
@@ -72,8 +72,12 @@ func (c *Ctx) only(fragments []string, fn func()) {
 	defer func() { c.focus = prev }()
 	fn()
 }
-func (c *Ctx) ok(rule, construct, where, detail string)   { c.add("discharged", rule, construct, where, detail) }
-func (c *Ctx) fail(rule, construct, where, detail string) { c.add("violated", rule, construct, where, detail) }
+func (c *Ctx) ok(rule, construct, where, detail string) {
+	c.add("discharged", rule, construct, where, detail)
+}
+func (c *Ctx) fail(rule, construct, where, detail string) {
+	c.add("violated", rule, construct, where, detail)
+}
 func (c *Ctx) undecided(rule, construct, where, detail string) {
 	c.add("undecided", rule, construct, where, detail)
 }
